@@ -532,6 +532,13 @@ func (w *vmWalker) stmt(st ast.Stmt, p vmPath) []vmPath {
 							}
 						}
 					}
+				} else if c, ok := f.Cond.(*ast.BinaryExpr); ok && (c.Op == token.GTR || c.Op == token.GEQ) && !func() bool { z, isZ := constInt(w.info, as.Rhs[0]); return isZ && z == 0 }() {
+					// for i := X; i > 0; i--   |   for i := X; i >= 1; i--
+					if z, ok := constInt(w.info, c.Y); ok && ((c.Op == token.GTR && z == 0) || (c.Op == token.GEQ && z == 1)) {
+						if inc, ok := f.Post.(*ast.IncDecStmt); ok && inc.Tok == token.DEC {
+							trip, tripOK = w.operandSym(as.Rhs[0])
+						}
+					}
 				} else if z, ok := constInt(w.info, as.Rhs[0]); ok && z == 0 {
 					if c, ok := f.Cond.(*ast.BinaryExpr); ok && c.Op == token.LSS {
 						if inc, ok := f.Post.(*ast.IncDecStmt); ok && inc.Tok == token.INC {
@@ -1053,7 +1060,27 @@ func (ci *ceInterp) evalCalls(n ast.Node, st *ceState, stmtVars map[types.Object
 				for _, f := range callee.Decl.Type.Params.List {
 					params = append(params, f.Names...)
 				}
+				variadic := false
+				if sig, ok := cf.Type().(*types.Signature); ok {
+					variadic = sig.Variadic()
+				}
 				for i, a := range call.Args {
+					// positions handed to a variadic parameter (patchJumps(target, a, b) / patchJumps(target, list...)):
+					// the parameter is the list of all of them
+					if variadic && len(params) > 0 && i >= len(params)-1 {
+						pobj := ci.info.ObjectOf(params[len(params)-1])
+						switch x := ast.Unparen(a).(type) {
+						case *ast.Ident:
+							if j, ok := st.jumps[ci.info.ObjectOf(x)]; ok {
+								bindJ[pobj] = append(bindJ[pobj], j...)
+							}
+						case *ast.SelectorExpr:
+							if x.Sel.Name == "breaks" && st.bodyBase != nil {
+								bindJ[pobj] = append(bindJ[pobj], jumpRec{h: st.bodyBase.clone(), pos: a.Pos()})
+							}
+						}
+						continue
+					}
 					if i >= len(params) {
 						continue
 					}
